@@ -175,7 +175,8 @@ class RTDCBase(abc.ABC):
     def _get_length(self):
         # Try to get length from metadata.
         length = self.config["experiment"].get("event count")
-        if length is not None:
+        if length is not None and length >= 0:
+            # (a negative event count is invalid metadata and is ignored)
             return length
         # Try to get the length from the feature sizes
         keys = list(self._events.keys()) or self.features_basin
